@@ -17,6 +17,7 @@ func init() {
 			c.run("C08-R3", "WHO-CALLS: truncation policy per protocol", c08R3)
 			c.run("C08-R4", "PAIR: compression probing restores the read offset", c08R4)
 			c.run("C08-R5", "GUARD-DOM/MUST-PASS: shape of the hash pipeline on both ends", c08R5)
+			c.run("C08-S1", "shared with C07-R2: with overwrite the destination path is built from the peer's own (validated) name, never from a constant", c07R2)
 		})
 }
 
